@@ -498,13 +498,12 @@ func (self *Lexer) makeEquals() Token {
 
 func (self *Lexer) makeOr() Token {
 	startLocation := self.location
-	self.advance()
 
 	tokenKind := BitOr
 	value := "|"
 
-	if self.currentChar != nil {
-		switch *self.currentChar {
+	if self.nextChar != nil {
+		switch *self.nextChar {
 		case '|':
 			tokenKind = Or
 			value = "||"
@@ -532,13 +531,12 @@ func (self *Lexer) makeOr() Token {
 
 func (self *Lexer) makeAnd() Token {
 	startLocation := self.location
-	self.advance()
 
 	tokenKind := BitAnd
 	value := "&"
 
-	if self.currentChar != nil {
-		switch *self.currentChar {
+	if self.nextChar != nil {
+		switch *self.nextChar {
 		case '&':
 			tokenKind = And
 			value = "&&"
